@@ -98,8 +98,33 @@ def run(ctx):
     rng = ctx.rng
     n = 48 if ctx.tier == 'quick' else 1200
     k = 0
-    for t in range(n):
-        a, b, kinds = gen_nb.pair(rng)
+    def render_decisions(k, triple):
+        """pretty_print_merge_decisions on the decisions of one merge (mergetool or inline strategy)"""
+        bb, l, rr, kinds = triple
+        bb, l, rr = no_esc(bb), no_esc(l), no_esc(rr)
+        res = mergelib.run_merge(bb, l, rr, rng.choice([mergelib.Args('mergetool'), mergelib.Args('inline')]))
+        if res[0] != 'ok':
+            return k
+        from nbdime.merging.decisions import MergeDecision
+        ds = [MergeDecision({kk: (to_diffentry_dicts(copy.deepcopy(v)) if kk.endswith('_diff') or kk == 'similar_insert' and v is not None else copy.deepcopy(v)) for kk, v in dd.items()}) for dd in res[2]]
+        for dd in ds:
+            dd['common_path'] = tuple(dd['common_path'])
+        k += 1
+        bits = (k * 11) % 64
+        use_color, tool = bool(k % 2), ['git', 'diff', 'difflib'][k % 3]
+        data = {'b': enc(bb), 'l': enc(l), 'r': enc(rr), 'use_color': use_color, 'tool': tool, 'ignored': [c for i, c in enumerate(CATS) if bits >> i & 1]}
+        ctx.case('m' + canon(bb) + canon(l) + canon(rr) + str(bits), bool(ds))
+        nbb = nbformat.from_dict(copy.deepcopy(bb))
+        render(ctx, 'pretty_print_merge_decisions', lambda cfg: pp.pretty_print_merge_decisions(nbb, ds, cfg), make_cfg(bits, use_color, False, tool), data)
+        return k
+
+    # the last iterations: only decisions, from the scenario that puts character-level diffs on line paths (often line 0)
+    n_line = 24 if ctx.tier == 'quick' else 400
+    for t in range(n + n_line):
+        if t >= n:
+            a = b = None
+        else:
+            a, b, kinds = gen_nb.pair(rng)
         a, b = no_esc(a), no_esc(b)
         r, _ = c01.impl_diffnb(a, b)
         if r[0] != 'ok':
@@ -125,22 +150,11 @@ def run(ctx):
             if rep == 0:
                 render(ctx, 'pretty_print_notebook', lambda cfg: pp.pretty_print_notebook(na, cfg), make_cfg(bits, use_color, color_words, tool), data)
         if t % 2 == 0:
-            bb, l, rr, kinds = gen_nb.any_triple(rng)
-            bb, l, rr = no_esc(bb), no_esc(l), no_esc(rr)
-            res = mergelib.run_merge(bb, l, rr, rng.choice([mergelib.Args('mergetool'), mergelib.Args('inline')]))
-            if res[0] == 'ok':
-                from checks import c09
-                from nbdime.merging.decisions import MergeDecision
-                ds = [MergeDecision({kk: (to_diffentry_dicts(copy.deepcopy(v)) if kk.endswith('_diff') or kk == 'similar_insert' and v is not None else copy.deepcopy(v)) for kk, v in dd.items()}) for dd in res[2]]
-                for dd in ds:
-                    dd['common_path'] = tuple(dd['common_path'])
-                k += 1
-                bits = (k * 11) % 64
-                use_color, tool = bool(k % 2), ['git', 'diff', 'difflib'][k % 3]
-                data = {'b': enc(bb), 'l': enc(l), 'r': enc(rr), 'use_color': use_color, 'tool': tool, 'ignored': [c for i, c in enumerate(CATS) if bits >> i & 1]}
-                ctx.case('m' + canon(bb) + canon(l) + canon(rr) + str(bits), bool(ds))
-                nbb = nbformat.from_dict(copy.deepcopy(bb))
-                render(ctx, 'pretty_print_merge_decisions', lambda cfg: pp.pretty_print_merge_decisions(nbb, ds, cfg), make_cfg(bits, use_color, False, tool), data)
+            k = render_decisions(k, gen_nb.any_triple(rng))
+    # decisions on line paths: character-level diffs inside one line (often line 0) next to line-level decisions
+    for t in range(24 if ctx.tier == 'quick' else 400):
+        k = render_decisions(k, gen_nb.triple_scenario(rng, first='same-inline-edit-plus-insert'))
+        ctx.count('decisions on line paths')
     # every changed source line is printed (the finest reading of "prints something for every diff that touches a
     # non-ignored category"): one line removed / added / changed, among lines that look like diff syntax
     nasty = ['--- a', '-- comment', '++i;', '+++ x', '@@ -1 +1 @@', 'diff --git a/x b/x', 'index 123..456 100644', '< old', '> new', '---', '+++',
